@@ -486,6 +486,10 @@ class Attributes(collections.UserDict[str, "_core.Attr"]):
         self, attrs: Iterable[_core.Attr], owner: _core.Node | _core.Function
     ) -> None:
         self._owner = owner
+        attrs = tuple(attrs)
+        for attr in attrs:
+            if not isinstance(attr, _core.Attr):
+                raise TypeError(f"Value must be an Attr, not {type(attr)}")
         super().__init__({attr.name: attr for attr in attrs})
 
     def __setitem__(self, key: str, value: _core.Attr) -> None:
